@@ -253,7 +253,11 @@ def kernel_sequential(ctx, K, E, eps, cid, tags, masks=(), R=None):
 
 # ---------------------------------------------------------------- API ----
 def api_object(ctx, RP, x, cid, tags, sparse, missing, **kw):
-    ok, obj = ctx.call(RP, np.array(x), metric=kw.pop("metric", "supremum"),
+    from pvm.gen.held import as_held
+    hx, htag = as_held(ctx.rng("held", cid, sparse, missing), np.array(x),
+                       allow_list=False)
+    ctx.count("input_held_as:" + htag)
+    ok, obj = ctx.call(RP, hx, metric=kw.pop("metric", "supremum"),
                        sparse_rqa=sparse, missing_values=missing,
                        silence_level=3, **kw)
     ctx.evals()
